@@ -154,6 +154,18 @@ def _plugin_cases(tier):
     out += [{"s": x, "pos": "dict", "fmt": "cmd:cat"} for x in _strings(ALPHA_Q, 2)]
     out += [{"s": x, "pos": "whole", "fmt": "cmd:black"} for x in _strings(ALPHA_Q, 2)]
     out += [{"s": p + "a" + q, "pos": "whole", "fmt": "cmd:black"} for p in BOUNDARY for q in BOUNDARY]
+    # a format-command that removes trailing blanks from every line (the layout of multi-line literals protects them)
+    sp = [x for x in _strings(["a", " ", "\n", "\\"], 4 if tier == "quick" else 5) if " " in x]
+    out += [{"s": x, "pos": "whole", "fmt": "cmd:stripsp"} for x in sp]
+    out += [{"s": x, "pos": pos, "fmt": "cmd:stripsp"} for x in sp if len(x) <= 3 for pos in ("list", "dict", "fix")]
+    # test files in a single-byte source encoding (PEP 263 cookie) and with a byte order mark: non-ASCII characters are written raw
+    for enc, extra in (("latin-1", "\xa4"), ("cp1252", "\u20ac"), ("utf-8-sig", "\U0001f40d")):
+        al = ["a", "\xe9", "\xdf", "\n", "'", extra]
+        for x in _strings(al, 3 if tier == "quick" else 4):
+            if any(ord(ch) > 127 for ch in x):
+                out.append({"s": x, "pos": "whole", "fmt": "enc:" + enc})
+                if len(x) <= 2:
+                    out += [{"s": x, "pos": pos, "fmt": "enc:" + enc} for pos in ("list", "dict", "sub", "fix")]
     return out
 
 
@@ -248,7 +260,7 @@ def _judge_factory(fmt):
     def judge(cases):
         if fmt == "hist":
             return _judge_hist(cases)
-        if fmt.startswith("cmd:"):
+        if fmt.startswith(("cmd:", "enc:")):
             return _judge_plugin(cases, fmt)
         return batch.one_file(cases, _site, lambda c: ["DC"] if c["pos"] == "dc" else [], ["create", "fix"], _analyze, pre=pre)
 
@@ -263,17 +275,31 @@ def _judge_plugin(cases, fmt):
     from ..oracles.locate import snapshot_calls
     import sys
 
-    cmd = "cat" if fmt == "cmd:cat" else "%s -m black -q -" % sys.executable
+    cmd = {"cmd:cat": "cat", "cmd:stripsp": "sed -e 's/ *$//'"}.get(fmt, "%s -m black -q -" % sys.executable)
     src = P.module([_site(i, c) for i, c in enumerate(cases)], ["DC"] if any(c["pos"] == "dc" for c in cases) else [])
     ctx = {"src": src}
-    d = plugin.mk_project({"test_something.py": src, "pyproject.toml": '[tool.inline-snapshot]\nformat-command="%s"\n' % cmd})
+    n = len(cases)
+    codec = "utf-8"
+    pp = '[tool.inline-snapshot]\nformat-command="%s"\n' % cmd
+    raw = src
+    if fmt.startswith("enc:"):
+        codec = fmt[4:]
+        pp = ""
+        if codec != "utf-8-sig":
+            # the observed values are spelled with escapes in the test (repr of a str keeps printable non-ASCII characters raw)
+            src = "# -*- coding: %s -*-\n" % codec + src
+        raw = src.encode(codec)
+    d = plugin.mk_project({"test_something.py": raw, "pyproject.toml": pp})
     try:
         r = plugin.session(d, ["--inline-snapshot=create,fix"], timeout=300)
-        after = plugin.listing(d, text=True)["test_something.py"]
+        rawafter = plugin.listing(d)["test_something.py"]
     finally:
         plugin.cleanup()
+    try:
+        after = rawafter.decode(codec)
+    except UnicodeDecodeError as e:
+        return [("file-no-longer-in-its-declared-encoding", "%s: %s" % (codec, e))] * n, ctx
     ctx["after"] = after
-    n = len(cases)
     if plugin.internal_error(r["out"]) or r["rc"] not in (0, 1):
         return [("internal-error", "rc=%s %s" % (r["rc"], r["out"][-600:]))] * n, ctx
     if "Problems" in r["out"]:
